@@ -61,6 +61,7 @@ ASSUMPTIONS = [
     "the relative order of reset_model and set_rng is not stated: don't-care; a reset after the last recorded state is not judged either",
     "the counting model starts 'dirty' (1000 steps on its counter) so that a missing reset is visible; states are identified by the number of steps since the last reset",
     "the generator handed to the model is identified by a copy of its bit-generator state taken inside set_rng (if several are handed, the last one handed before the first step counts) and, when the model steps, by the state of that same generator object at the model's first step - the stream the chain really works with",
+    "history dimension: the same call on a model object that has been through sample() once before with another (seed, n_chains, index); the stream at its first step must be the fresh model's",
     "environment dimension: the package logger at its default level and at DEBUG (what --verbose sets); identical triples must give identical streams in both",
     "stream identity / separation is decided on the first 1000 raw 64-bit outputs (identical sequence; pairwise disjoint output sets, which covers every relative lag < 1000); true non-overlap of the infinite streams is numpy's SeedSequence.spawn guarantee - trusted, not checked",
     "how the stream is derived from (seed, n_chains, index) is not stated and not compared with any reference derivation; nothing is demanded between different seeds or different n_chains",
@@ -137,7 +138,7 @@ class CountingMCMC(_Recording, MCMCModel):
         self.since_reset = 0
 
     def step(self):
-        if self.total == 0 and isinstance(self._rng, np.random.Generator):
+        if self.since_reset in (0, DIRTY) and isinstance(self._rng, np.random.Generator):
             # the stream the model actually works with: state of its generator when it is first asked to step
             self.log.append(("rng_at_first_step", copy.deepcopy(self._rng.bit_generator.state)))
         self.since_reset += 1
@@ -221,6 +222,11 @@ def _handed_state(col, handed, n_steps_before, case, tag):
     return state
 
 
+def warm_params(p):
+    c = p["n_chains"] + 1
+    return {"seed": p["seed"] + 7, "n_chains": c, "index": (p["index"] + 1) % c, "b": 1, "t": 1}
+
+
 def run_mcmc_stub(p, col):
     """One sample() call on the counting model; returns the first outputs of the handed generator."""
     b, t, n = p["b"], p["t"], p["n"]
@@ -230,6 +236,10 @@ def run_mcmc_stub(p, col):
     col.transitions += 1
     model = CountingMCMC()
     try:
+        if p.get("warm"):
+            # the model object has been through sample() before, with ANOTHER triple: what it is handed now must not depend on that
+            _call(model, 1, warm_params(p))
+            model.log, model.total, model.serial, model.since_reset = [], 0, 0, DIRTY
         holder = _call(model, n, p)
     except Exception as exc:  # noqa: BLE001
         if not exception_origin_in_repo(exc):
@@ -290,6 +300,10 @@ def run_mcmc_sparse(p, col):
     col.transitions += 1
     model = ProbeSparse(experiment_space=_space(), n_embedding_dimensions=2)
     try:
+        if p.get("warm"):
+            _call(model, 1, warm_params(p))
+            model.handed = []
+            del model.at_first_step
         holder = _call(model, n, p)
     except Exception as exc:  # noqa: BLE001
         if not exception_origin_in_repo(exc):
@@ -351,7 +365,7 @@ def _judge_same(col, ref, ref_p, out, p):
         col.violation("C17|rng|differs-for-identical-triple",
                       f"(seed={p['seed']}, n_chains={p['n_chains']}, index={p['index']}): the handed generator differs between "
                       f"{ref_p['model']} b={ref_p['b']} t={ref_p['t']} n={ref_p['n']} and {p['model']} b={p['b']} t={p['t']} n={p['n']}"
-                      f"{' with the batchie logger at DEBUG' if p.get('debug') else ''}",
+                      f"{' with the batchie logger at DEBUG' if p.get('debug') else ''}{' on a model object sample() had used before with another triple' if p.get('warm') else ''}",
                       {"kind": "same-triple", "a": ref_p, "b": p})
 
 
@@ -419,6 +433,11 @@ def run_item(item, col, tier):
                 p = {"model": model, "seed": seed, "n_chains": c, "index": i, "b": b, "t": t, "n": n, "debug": True}
                 _judge_same(col, ref, ref_p, _run(p, col), p)
                 col.nontriv("debug-logging", seed, c, i, model)
+            # the same triple on a model object that sample() has used before with another triple
+            for model, (b, t, n) in (("stub", (0, 1, 1)), ("stub", (2, 2, 2)), ("sparse", (1, 2, 2))):
+                p = {"model": model, "seed": seed, "n_chains": c, "index": i, "b": b, "t": t, "n": n, "warm": True}
+                _judge_same(col, ref, ref_p, _run(p, col), p)
+                col.nontriv("reused-model", seed, c, i, model)
             per_index[i] = (ref, ref_p)
             if ref is not None:
                 col.outcome("stream", ref[:4].tobytes())
@@ -437,7 +456,7 @@ def replay(case, col):
     if kind == "vi":
         run_vi({k_: case[k_] for k_ in ("seed", "n", "n_chains", "index", "b", "t")}, col)
     elif kind in ("mcmc-stub", "mcmc-sparse"):
-        p = {k_: case[k_] for k_ in ("model", "seed", "n_chains", "index", "b", "t", "n", "debug") if k_ in case}
+        p = {k_: case[k_] for k_ in ("model", "seed", "n_chains", "index", "b", "t", "n", "debug", "warm") if k_ in case}
         _run(p, col)
     elif kind == "same-triple":
         _judge_same(col, _run(case["a"], col), case["a"], _run(case["b"], col), case["b"])
